@@ -43,6 +43,7 @@ import (
 	"runtime"
 	"strings"
 	"sync"
+	"sync/atomic"
 	"testing"
 
 	"go.minekube.com/connect"
@@ -437,6 +438,20 @@ type local struct {
 	counts map[string]int
 }
 
+var sigSeen sync.Map // signature -> *atomic.Int64
+
+// violation materialises the witness only for the first few cases of a signature.
+func violation(r *lib.Run, sig, what string, wit func() map[string]any) {
+	c, _ := sigSeen.LoadOrStore(sig, new(atomic.Int64))
+	if n := c.(*atomic.Int64).Add(1); n > 3 {
+		if n%8192 == 0 {
+			r.Violation(sig, what, nil)
+		}
+		return
+	}
+	r.Violation(sig, what, wit())
+}
+
 func (l *local) c(k string) { l.counts[k]++ }
 
 func witness(path, class string, b []byte, extra map[string]any) map[string]any {
@@ -464,7 +479,7 @@ func describe(w *connectutil.SessionPrincipalWire) any {
 
 func judge(r *lib.Run, l *local, path, class string, b []byte, w *connectutil.SessionPrincipalWire, err error, pan any, why string, rules []string, want ref.Fields) {
 	if pan != nil {
-		r.Violation("ExtractSessionPrincipalWire-panics:"+slug(fmt.Sprint(pan)), fmt.Sprint(pan), witness(path, class, b, nil))
+		violation(r, "ExtractSessionPrincipalWire-panics:"+slug(fmt.Sprint(pan)), fmt.Sprint(pan), func() map[string]any { return witness(path, class, b, nil) })
 		return
 	}
 	reason := ""
@@ -482,18 +497,23 @@ func judge(r *lib.Run, l *local, path, class string, b []byte, w *connectutil.Se
 		case err != nil:
 			l.c(path + ":rejected_as_required")
 		case w == nil:
-			r.Violation("silent-downgrade-to-no-principal:"+reason, "ExtractSessionPrincipalWire returned (nil, nil) for a proposal the statement wants rejected ("+strings.Join(append([]string{reason}, rules...), ", ")+")",
-				witness(path, class, b, map[string]any{"rules": rules, "malformed": why}))
+			violation(r, "silent-downgrade-to-no-principal:"+reason, "ExtractSessionPrincipalWire returned (nil, nil) for a proposal the statement wants rejected ("+reason+")",
+				func() map[string]any {
+					return witness(path, class, b, map[string]any{"rules": rules, "malformed": why})
+				})
 		default:
-			r.Violation("accepted-despite:"+reason, "ExtractSessionPrincipalWire returned fields for a proposal the statement wants rejected ("+reason+")",
-				witness(path, class, b, map[string]any{"rules": rules, "malformed": why, "gate": describe(w)}))
+			violation(r, "accepted-despite:"+reason, "ExtractSessionPrincipalWire returned fields for a proposal the statement wants rejected ("+reason+")",
+				func() map[string]any {
+					return witness(path, class, b, map[string]any{"rules": rules, "malformed": why, "gate": describe(w)})
+				})
+			l.c("violating_cases:accepted-despite:" + reason)
 		}
 		return
 	}
 	l.c(path + ":must_accept")
 	if err != nil {
-		r.Violation("rejects-well-formed-proposal:"+slug(err.Error()), "a structurally valid proposal to which no rejection rule applies was rejected: "+err.Error(),
-			witness(path, class, b, map[string]any{"error": err.Error()}))
+		violation(r, "rejects-well-formed-proposal:"+slug(err.Error()), "a structurally valid proposal to which no rejection rule applies was rejected: "+err.Error(),
+			func() map[string]any { return witness(path, class, b, map[string]any{"error": err.Error()}) })
 		return
 	}
 	got := connectutil.SessionPrincipalWire{}
@@ -520,10 +540,11 @@ func judge(r *lib.Run, l *local, path, class string, b []byte, w *connectutil.Se
 		mis = "connect_session_nonce"
 	}
 	if mis != "" {
-		r.Violation("field-mismatch:"+mis, "extracted "+mis+" differs from what the reference parser reads",
-			witness(path, class, b, map[string]any{"gate": describe(w), "reference": map[string]any{"protocol": want.Protocol, "endpoint_id": want.EndpointID,
+		violation(r, "field-mismatch:"+mis, "extracted "+mis+" differs from what the reference parser reads", func() map[string]any {
+			return witness(path, class, b, map[string]any{"gate": describe(w), "reference": map[string]any{"protocol": want.Protocol, "endpoint_id": want.EndpointID,
 				"organization_id": want.OrganizationID, "nonce_hex": hex.EncodeToString(want.Nonce), "source_protocol_version": want.SourceProtocolVersion,
-				"policy_revision": want.PolicyRevision, "envelope_len": len(want.Envelope)}}))
+				"policy_revision": want.PolicyRevision, "envelope_len": len(want.Envelope)}})
+		})
 		return
 	}
 	switch {
@@ -577,7 +598,7 @@ func TestC41(t *testing.T) {
 	seedRng.Read(bigEnv)
 	seedRng.Read(hugeEnv)
 
-	nCases := r.N(240_000, 12_000_000)
+	nCases := r.N(240_000, 36_000_000)
 	workers := runtime.NumCPU()
 	if workers > 16 {
 		workers = 16
@@ -650,7 +671,7 @@ func TestC41(t *testing.T) {
 							judge(r, l, "unmarshal", class, b, w, err, pan, why, rules, want)
 						}
 					}
-					if !r.Thorough() || done%8 == 0 {
+					if !r.Thorough() || done%16 == 0 {
 						r.DistinctBytes(b)
 					}
 					if done%499 == 0 && r.WantSample() {
